@@ -91,4 +91,117 @@ def emaRec (a : α) (v : α) : List α → α
   | [] => v
   | x :: xs => emaRec a ((x - v) * a + v) xs
 
+/-- the series of values a spec `f` takes along the stream (one per prefix) -/
+def series (f : List α → α) (xs : List α) : List α :=
+  (List.range xs.length).map fun i => f (xs.take (i + 1))
+
+/-- generic weighted mean of the last `n` values, weights given oldest → newest -/
+def weighted (w : Nat → α) (l : List α) : α :=
+  (l.zipIdx.map fun p => w p.2 * p.1).sum / ((List.range l.length).map w).sum
+
+/-- SWMA: triangular weights `min(i+1, n-i)` (i = 0 oldest) -/
+def swma (n : Nat) (v : α) (xs : List α) : α :=
+  if n = 1 then cur n v xs
+  else weighted (fun i => ((min (i + 1) (n - i) : Nat) : α)) (win n v xs)
+
+/-- TRIMA: SMA of the SMA series (the inner series is `v` before the stream began) -/
+def trima (n : Nat) (v : α) (xs : List α) : α := sma n v (series (sma n v) xs)
+
+/-- HMA: `WMA(⌊√n⌋)` of `2·WMA(n/2) − WMA(n)` -/
+def hma (n : Nat) (v : α) (xs : List α) : α :=
+  wma (Nat.sqrt n) v (series (fun p => ((2 : Nat) : α) * wma (n / 2) v p - wma n v p) xs)
+
+/-- least-squares line through the last `n` values at abscissae `-(n-1) … 0`, evaluated at `0`
+    (the newest point) -/
+def linreg (n : Nat) (v : α) (xs : List α) : α :=
+  let l := win n v xs
+  let nn : α := (n : α)
+  let xsum : α := -(((List.range n).sum : Nat) : α)
+  let x2sum : α := (((List.range n).map fun i => i * i).sum : Nat)
+  let ysum := l.sum
+  -- abscissa of element i (oldest = 0) is i - (n-1)
+  let xysum := (l.zipIdx.map fun p => (((p.2 : Nat) : α) - ((n - 1 : Nat) : α)) * p.1).sum
+  let k := (nn * xysum - xsum * ysum) / (nn * x2sum - xsum * xsum)
+  (ysum - k * xsum) / nn
+
+/-- Conv: weights are given oldest → newest; normalised by their sum -/
+def conv (ws : List α) (v : α) (xs : List α) : α :=
+  let l := win ws.length v xs
+  (List.zipWith (fun x w => x * w) l ws).sum / ws.sum
+
+/-- VWMA over the last `n` (price, volume) pairs -/
+def vwma (n : Nat) (v : α × α) (xs : List (α × α)) : α :=
+  let l := lastN n (history n v xs)
+  (l.map fun p => p.1 * p.2).sum / (l.map fun p => p.2).sum
+
+/-- ascending sort (core `List.mergeSort`, numeric order) -/
+def sort (l : List α) : List α := l.mergeSort (fun a b => decide (a ≤ b))
+
+/-- median of a list: mean of the two middle elements of the sorted list (the same element
+    twice when the length is odd) -/
+def median (l : List α) : α :=
+  let s := sort l
+  let n := l.length
+  let half := n / 2
+  let halfm1 := if n % 2 = 0 then half - 1 else half
+  ((s[half]?.getD 0) + (s[halfm1]?.getD 0)) * (1 / ((2 : Nat) : α))
+
+def smm (n : Nat) (v : α) (xs : List α) : α := median (win n v xs)
+
+/-- median absolute deviation … around the median, averaged (as the crate defines it) -/
+def medianAbsDev (n : Nat) (v : α) (xs : List α) : α :=
+  let l := win n v xs
+  let m := median l
+  (l.map fun x => sabs (x - m)).sum / (n : α)
+
+/-- CCI: (value − mean) / mean-absolute-deviation, `0` when the deviation is not positive -/
+def cci (n : Nat) (v : α) (xs : List α) : α :=
+  let d := meanAbsDev n v xs
+  if 0 < d then (cur n v xs - sma n v xs) / d else 0
+
+def highest [Inhabited α] (n : Nat) (v : α) (xs : List α) : α := maxL (win n v xs)
+def lowest [Inhabited α] (n : Nat) (v : α) (xs : List α) : α := minL (win n v xs)
+def highestIndex (n : Nat) (v : α) (xs : List α) : Nat := ageOfNewestMax (win n v xs)
+def lowestIndex (n : Nat) (v : α) (xs : List α) : Nat := ageOfNewestMin (win n v xs)
+
+/-! recursive methods -/
+def ema (n : Nat) (v : α) (xs : List α) : α := emaRec (((2 : Nat) : α) / ((n + 1 : Nat) : α)) v xs
+def rma (n : Nat) (v : α) (xs : List α) : α := emaRec (1 / (n : α)) v xs
+def wsma (n : Nat) (v : α) (xs : List α) : α := emaRec (1 / (n : α)) v xs
+def dma (n : Nat) (v : α) (xs : List α) : α := ema n v (series (ema n v) xs)
+def tma (n : Nat) (v : α) (xs : List α) : α := ema n v (series (dma n v) xs)
+def dema (n : Nat) (v : α) (xs : List α) : α := ((2 : Nat) : α) * ema n v xs - dma n v xs
+def tema (n : Nat) (v : α) (xs : List α) : α :=
+  ((3 : Nat) : α) * (ema n v xs - dma n v xs) + tma n v xs
+
+/-- successive changes `x_k − x_{k−1}` with `x_{−1} = v` -/
+def changes : α → List α → List α
+  | _, [] => []
+  | p, x :: l => (x - p) :: changes x l
+
+/-- TSI: EMA_short(EMA_long(change)) / EMA_short(EMA_long(|change|)), all seeded with 0 -/
+def tsi (short long : Nat) (v : α) (xs : List α) : α :=
+  let ch := changes v xs
+  let num := ema short 0 (series (ema long 0) ch)
+  let den := ema short 0 (series (ema long 0) (ch.map sabs))
+  if 0 < den then num / den else 0
+
+def posPart (c : α) : α := if 0 < c then c else 0
+def negPart (c : α) : α := if c < 0 then -c else 0
+
+/-- Vidya: EMA whose smoothing `2/(n+1)` is scaled by |CMO| of the last `n` changes -/
+def vidya [DecidableEq α] (n : Nat) (v : α) (xs : List α) : α :=
+  let f : α := ((2 : Nat) : α) / ((n + 1 : Nat) : α)
+  let ch := changes v xs
+  -- fold over prefixes: (index, out)
+  ((List.range xs.length).foldl (fun (out : α) i =>
+    let x := xs[i]?.getD v
+    let w := lastN n (List.replicate n 0 ++ ch.take (i + 1))
+    let up := (w.map posPart).sum
+    let dn := (w.map negPart).sum
+    if up + dn = 0 then x
+    else
+      let cmo := sabs ((up - dn) / (up + dn))
+      x * (f * cmo) + (1 - f * cmo) * out) v)
+
 end Yata.Spec
